@@ -132,6 +132,13 @@ SPIKES = "efjlopqzEFJLOPQZ" * 3 + "UuXxIiTtBbJj" + "0159" + "*-._~!@#$%&()[]{}?\
 
 
 def rand_residues(rng, n, kind):
+    if kind.startswith("spikeL:"):
+        # letters only (every one is a residue in text mode): some are outside the nucleotide alphabets
+        s = list(rand_residues(rng, n, kind[7:]))
+        if s and rng.random() < 0.7:
+            for _ in range(rng.choice([1, 1, 2])):
+                s.insert(rng.choice([0, len(s), rng.randrange(len(s) + 1)]), rng.choice("efjlopqzEFJLOPQZUXIT"))
+        return "".join(s)
     if kind.startswith("spike:"):
         # residues of the base alphabet with (usually) a few symbols that some alphabet / format selection must reject or skip:
         # letters outside the nucleotide alphabets, synonyms, digits, punctuation, blanks (never > / CR LF: those are structure)
@@ -668,6 +675,7 @@ def monitor_windows(items, abc, start_idx=0):
 
 
 KEY_GEOM = "seebuf:line-geometry-accepts-long-last-line"
+KEY_FETCHSUB_EXC = "fetchsubseq:illegal-residue-raises-exception"
 
 
 def last_record_empty(data):
@@ -946,7 +954,8 @@ def _monitor_c04(case, out):
 C04_THEOREMS = ["fwd_first_window", "fwd_windows_tile", "rev_first_window", "rev_windows_tile", "rev_offset_brute_force",
                 "addbuf_moves_only_bpos", "loadbuf_ignores_bpos_partial", "nextchar_block_size_independent_partial",
                 "writeFasta_keeps_residues_partial", "open_block_size_independent", "header_fasta_block_size_independent",
-                "seebuf_is_byte_fold", "buffer_cut_invisible_partial"]
+                "seebuf_is_byte_fold", "buffer_cut_invisible_partial", "readinfo_loop_is_file_fold", "readInfo_block_size_independent",
+                "readInfo_after_open_block_size_independent"]
 C02_THEOREMS = ["loadbuf_total", "nextchar_total", "nextchar_no_fault", "seebuf_total", "inmaps_agree"]
 C07_THEOREMS = ["findSubseq_absent", "findSubseq_out_of_range", "fetchSubseq_absent", "fetchSubseq_start_out_of_range", "findSubseq_cases",
                 "lands_on_start_line", "lands_on_start_residue", "lands_on_start_none", "bplrpl_sound_partial", "bplrpl_unsound_single_line", "bplrpl_unsound_at_init"]
@@ -1495,6 +1504,82 @@ def monitor_matrix(case, out):
                         return bad("ReadBlock delivered %d residues, the file has %d legal residues" % (ent["n"], len(e)), line)
                     idx += 1
     return None
+
+
+def fetchspike_case(rng, k):
+    """C07: keyed retrieval from a file opened in digital mode when the record holds letters outside the alphabet: PositionByKey
+    succeeds, the read inside Fetch / FetchInfo / FetchSubseq fails - the call must report eslEFORMAT, not eslOK"""
+    fmt = ["fasta", "embl", "genbank", "ddbj", "uniprot"][k % 5]
+    kind = "spikeL:" + rng.choice(["dna", "rna"])
+    if fmt == "fasta":
+        data, meta = gen_fasta(rng, "quick", kind, geometry="const", nrec=rng.choice([1, 2, 3]), maxlen=rng.choice([8, 70, 200]))
+    else:
+        data, meta = gen_linebased(rng, fmt, kind, nrec=rng.choice([1, 2, 3]))
+    recs = meta["recs"]
+    ops = ["file ext=dat hex=" + hx(data)]
+    for abc in rng.sample(["text", "dna", "rna", "amino"], 3):
+        B = rng.choice(BSIZES)
+        for r in rng.sample(recs, min(len(recs), 2)):
+            key = r["acc"] if (r.get("acc") and rng.random() < 0.3) else r["name"]
+            # (one failing call ends a session: a fresh session per request)
+            ops += ["open fmt=%s abc=%s B=%d" % (fmt, abc, B), "index"]
+            call = rng.choice(["fetch", "fetchinfo", "fetchsub"])
+            if call == "fetchsub":
+                n = len(r["seq"])
+                ops.append("fetchsub key=%s s=%d e=%d" % (hx(key.encode()), 1, rng.choice([0, n]) if n else 0))
+            else:
+                ops.append("%s key=%s" % (call, hx(key.encode())))
+            ops.append("close")
+    return {"name": "fetchspike%d-%s" % (k, fmt), "ops": ops, "sticky": 1,
+            "meta": {"fetchspike": {r["name"]: r["seq"] for r in recs} | {r["acc"]: r["seq"] for r in recs if r.get("acc")}}}
+
+
+def monitor_fetchspike(case, out):
+    from vlib.engine import Failure
+    seqs = case["meta"]["fetchspike"]
+    # known finding: FetchSubseq turns the eslEFORMAT of its read into an eslEINCONCEIVABLE exception
+    known = None
+    masked = list(out)
+    for i, (op, line) in enumerate(zip(case["ops"], out)):
+        if op.startswith("fetchsub ") and line.startswith("einconceivable") and line.endswith(" exc"):
+            known = Failure("monitor", "esl_sqio_FetchSubseq raised an eslEINCONCEIVABLE exception on a record holding a letter outside the alphabet: " + op[:60],
+                            key="C07:" + KEY_FETCHSUB_EXC)
+            masked[i] = "eformat line=-1 msg"
+    f = basic_line_checks(case, masked, Failure)
+    if f:
+        return f
+    out = masked
+    for data, od, items in sessions(case, out):
+        fmt, abc = od.get("fmt"), od.get("abc", "text")
+        for op, d, line in items:
+            if op not in ("fetch", "fetchinfo", "fetchsub"):
+                continue
+            st = line.split()[0] if line else ""
+            if st in ("fault", "atexit", "dead", "closed", "bad-op"):
+                continue
+            key = unhx(d.get("key", "-")).decode("latin-1")
+            if key not in seqs:
+                continue
+            e = expected_residues(seqs[key], fmt, abc)
+            tag = "%s key=%r (fmt=%s abc=%s B=%s)" % (op, key, fmt, abc, od.get("B"))
+            if e is None:
+                if st in ("ok", "eod"):
+                    return Failure("monitor", "%s: the record holds a letter outside the alphabet, the call returned %s" % (tag, line[:60]))
+                continue
+            if op == "fetchsub" and len(e) == 0:
+                continue
+            r = rec(line)
+            if st != "ok" or r is None:
+                return Failure("monitor", "%s: every symbol is legal but the call failed: %s" % (tag, line[:60]))
+            if op == "fetch" and r["seq"] != e:
+                return Failure("monitor", "%s: %d residues fetched, the file has %d legal residues" % (tag, r["n"], len(e)))
+            if op == "fetchinfo" and r["L"] != len(e):
+                return Failure("monitor", "%s: L=%d, the file has %d legal residues" % (tag, r["L"], len(e)))
+            if op == "fetchsub":
+                s_, e_ = int(d["s"]), int(d["e"]) or len(e)
+                if r["seq"] != e[s_ - 1:e_]:
+                    return Failure("monitor", "%s %d..%d: not the slice of the file's legal residues" % (tag, s_, e_))
+    return known
 
 
 def record_distribution(ctx, cases):
